@@ -17,14 +17,19 @@ def _alarm(signum, frame):
     raise CaseTimeout()
 
 
-def run_spec(mod, spec, timeout=120):
+def run_spec(mod, spec, timeout=180, attempt=1):
     t0 = time.time()
     signal.signal(signal.SIGALRM, _alarm)
-    signal.alarm(int(spec.get("wall_timeout", timeout)))
+    signal.alarm(int(spec.get("wall_timeout", timeout)) * attempt)
     try:
         res = mod.run_case(spec)
     except CaseTimeout:
-        res = {"inconclusive": "case wall-clock watchdog", "violations": []}
+        signal.alarm(0)
+        if attempt == 1:
+            # cases are deterministic: a stall of the machine (not of the case) does not repeat, so try once
+            # more with twice the allowance before calling the case inconclusive
+            return run_spec(mod, spec, timeout, attempt=2)
+        res = {"inconclusive": "case wall-clock watchdog (twice)", "violations": []}
     except BaseException as e:
         res = {"inconclusive": "harness error: %s: %s" % (type(e).__name__, str(e)[:300]),
                "trace": traceback.format_exc()[-3000:], "violations": []}
